@@ -446,6 +446,10 @@ impl FormatSpec {
             Some(FormatType::Exponent(_) | FormatType::FixedPoint(_) | FormatType::Percentage) => {
                 self.format_float(x as f64)
             }
+            // only the empty specification prints the name: any other one formats the integer value
+            None if *self != FormatSpec::parse("")? => {
+                self.format_int(&BigInt::from_u8(x).unwrap())
+            }
             None => {
                 let first_letter = (input.to_string().as_bytes()[0] as char).to_uppercase();
                 Ok(first_letter.collect::<String>() + &input.to_string()[1..])
